@@ -13,7 +13,7 @@ ASSUMPTIONS = ["reference BIP32 in vf/ref/bip32.py, self-tested on BIP32 test ve
 NSHARDS = {"quick": 32, "thorough": 64}
 BUDGET_S = {"quick": 200, "thorough": 1800}
 MIN_HITS = {
-    'quick': {"chain": 502, "step_hardened": 371, "step_normal": 405, "step_path": 530, "pub_derive": 760, "pub_hardened_refused": 244, "corrupt": 6912, "odd_seed": 103},
+    'quick': {"chain": 534, "step_hardened": 371, "step_normal": 405, "step_path": 562, "pub_derive": 792, "pub_hardened_refused": 244, "corrupt": 6912, "odd_seed": 103},
     'thorough': {"chain": 160636, "step_hardened": 119146, "step_normal": 152756, "step_path": 181197, "pub_derive": 261349, "pub_hardened_refused": 81682, "corrupt": 3455078, "odd_seed": 38329, "depth255": 124},
 }
 IDX = [0, 1, 2, 2**31 - 2, 2**31 - 1, 2**31, 2**31 + 1, 2**32 - 1]
